@@ -339,6 +339,18 @@ def _solved_pairs(ctx, sg, arc):
     loops = _enclosing_loops(sg, arc)
     a = ast.unparse(arc.args[0])
     b = ast.unparse(arc.args[1])
+    for lp in loops:
+        it_txt = ctx.norm.xtext(sg, lp.iter)
+        for tab in ("nodes_by_machine", "operations_by_machine"):
+            if tab in it_txt:
+                chk.violation(
+                    "R16.e", sg, lp,
+                    f"the machine sequences of the solved graph are taken from `{it_txt[:60]}`, i.e. from which machines an "
+                    "operation *may* run on, not from the schedule's machine lists (where it *did* run): for flexible "
+                    "operations arcs are added on machines the operation was never assigned to",
+                    loc=sg.loc(lp),
+                )
+                return
     if len(loops) != 2 or not ctx.norm.xtext(sg, loops[1].iter).endswith("schedule.schedule"):
         raise AnalysisError("build_solved_disjunctive_graph: machine-sequence loops not recognised")
     inner = loops[0]
